@@ -501,15 +501,17 @@ Section Model.
   Definition lami_after_write (l : lami) : lami :=
     mkLAMI (option_map li_after_write (la_info l)) (la_glmi l) (la_blocks l).
 
-  (* the number of bytes the reader insists on seeing (anywhere in the rest of the FILE, not of the
-     section) before it reads a global layer mask info: is_readable(fp, 17) *)
-  Definition glmi_probe : Z := 17.
+  (* a global layer mask info is at least its 4-byte length field; the reader looks for those bytes inside
+     the section: is_readable(fp, 4) and fp.tell() + 4 <= end_pos   (since f3a2729; before that it asked for
+     [glmi_probe_v0] = 17 readable bytes anywhere in the rest of the FILE: finding F-C01-2, Psd/Legacy.v) *)
+  Definition glmi_probe : Z := 4.
+  Definition glmi_probe_v0 : Z := 17.
 
   (* _read_body(fp, end_pos, ...): [s] is the rest of the whole file after the length field,
      [length] the section length; end_pos - tell = length - (len s - len current) *)
   Definition read_lami_body (v : Z) (s : stream) (length : Z) : res lami :=
     do (li, s2) <- read_layer_info v s;
-    do (g, s3) <- r_opt (is_readable glmi_probe s2 && (len s - len s2 <? length)) read_glmi s2;
+    do (g, s3) <- r_opt (is_readable glmi_probe s2 && (len s - len s2 + glmi_probe <=? length)) read_glmi s2;
     do tb <- (if is_readable 1 s3 then
                 do (bs, _) <- read_tagged_blocks v 4 (Some (length - (len s - len s3))) s3; Ok (Some bs)
               else Ok None);
@@ -600,9 +602,9 @@ Section Model.
     | None => (g_opacity g =? 0) && (g_kind g =? model_glmi_default_kind)
     | Some _ => memz (g_kind g) model_glmi_kinds
     end.
-  (* the reader looks for glmi_probe readable bytes in the rest of the FILE: an empty global layer
-     mask info (4 bytes) followed by fewer than 13 bytes (tagged blocks + whatever follows the
-     section) is not seen again *)
+  (* LEGACY (reader before f3a2729, finding F-C01-2, fixed): it looked for glmi_probe_v0 readable bytes in the rest
+     of the FILE, so an empty global layer mask info (4 bytes) followed by fewer than 13 bytes (tagged
+     blocks + whatever follows the section) was not seen again.  No longer part of wf_lami. *)
   Definition glmi_guard (v : Z) (l : lami) (restlen : Z) : bool :=
     match la_glmi l with
     | Some g =>
@@ -610,7 +612,7 @@ Section Model.
         | Some _ => true
         | None =>
             match write_tagged_blocks v 4 (match la_blocks l with Some bs => bs | None => [] end) with
-            | Ok (b, _) => glmi_probe <=? 4 + len b + restlen
+            | Ok (b, _) => glmi_probe_v0 <=? 4 + len b + restlen
             | Err _ => true
             end
         end
@@ -627,8 +629,7 @@ Section Model.
         | Some bs => wf_tbs bs && (is_some (la_glmi l) || negb (nonempty bs)) &&
                      (nonempty bs || (0 <? restlen))
         | None => restlen =? 0
-        end &&
-        glmi_guard v l restlen
+        end
     end.
   Definition wf_psd (d : psd) : bool :=
     header_valid (p_header d) && wf_resources (p_res d) &&
